@@ -19,7 +19,7 @@ RULE_TEXT = (
     "datagrams per run - corrupted copies of valid SD / SOME/IP messages (bit flips, byte replacement, truncation, insertion, region "
     "duplication, rewritten length / count / index fields, corrupted option payloads incl. non-ASCII configuration strings), foreign "
     "SOME/IP messages, arbitrary bytes of length 0..2048 - from known and unknown senders on both channels, also exactly at timer "
-    "deadlines; the run is executed again without them and compared. class svc: the same corpus at a SimpleService endpoint and its SD "
+    "deadlines (a few runs add a crowd of 250-700 further senders with valid messages); the run is executed again without what must be rejected (decodable SD messages stay) and compared. class svc: the same corpus at a SimpleService endpoint and its SD "
     "endpoint. Every injected byte string also goes through the four decoders directly. non-trivial = at least one injected datagram was "
     "rejected by the stack; distinct = interleaving signature"
 )
@@ -126,9 +126,19 @@ def make_injection(r):
         # valid SD message followed by garbage (not decodable as a SOME/IP message)
         good = refdec.enc_sd_message([refdec.find(0x7777)], r.randint(1, 0xFFFF))
         return good + r.choice([b"\x00", b"\xff" * 7, corrupt(r, base)[:15]]), "prefix+garbage"
+    if k < 0.91:
+        # a harmless SD message followed, in the same datagram, by a message with a foreign service / method id whose
+        # header otherwise looks like SD (interface 1, NOTIFICATION, E_OK) and whose payload is a decodable SD payload
+        good = refdec.enc_sd_message([refdec.find(0x7777)], r.randint(1, 0xFFFF))
+        inner = refdec.enc_sd_message([refdec.offer(0x1111, 9, 1, 0, 3, [refdec.ep4("10.0.0.9", 30500)]), refdec.subscribe(0x1111, 1, 1, 1, 3, 0, [refdec.ep4("10.0.0.9", 4000)])], r.randint(1, 0xFFFF))[16:]
+        svc, meth = r.choice([(0x1234, 0x8100), (0xFFFF, 0x8101), (0xFFFE, 0x8100), (0x4321, 1)])
+        return good + refdec.enc_someip(svc, meth, 0, r.randint(1, 0xFFFF), 1, 2, 0, inner), "sd+foreign"
     if k < 0.95:
         return refdec.enc_sd_message([refdec.offer(0x1111, 1, 1, 0, 3), refdec.subscribe(0x1111, 1, 1, 1, 3, 0, [refdec.ep4("10.0.0.9", 4000)])], r.randint(1, 0xFFFF), unicast=False), "unicast-flag-clear"
     return base, "valid"
+
+
+HARMLESS_KINDS = ("sd+foreign", "prefix+garbage", "crowd")
 
 
 def verdict(data):
@@ -158,6 +168,8 @@ def gen(seed, idx, tier):
         else:
             t = round(r.uniform(0.05, 5.0), 6) + 3e-8  # never the arrival instant of a scenario datagram
         src = r.choice([["10.0.0.1", 30490], ["10.0.0.2", 30490], ["10.0.0.66", 30490], ["10.0.0.66", 1234]]) if kind != "unicast-flag-clear" else ["10.0.0.77", 30490]
+        if kind in HARMLESS_KINDS and r.random() < 0.7:
+            src = r.choice([["10.0.0.66", 30490], ["10.0.0.66", 1234]])
         ops.append({"k": "inject", "t": t, "to": r.choice("AB"), "ch": r.choice("um"), "src": src, "hex": data.hex(), "kind": kind})
     if r.random() < 0.2:
         # a fresh sender: a valid Offer, its StopOffer, then the very same Offer bytes with only the unicast flag cleared
@@ -172,7 +184,18 @@ def gen(seed, idx, tier):
             ops.append({"k": "inject", "t": round(t0 + dt, 9), "to": to, "ch": ch, "src": src, "hex": data.hex(), "kind": kind})
     if r.random() < 0.3:
         ops.append({"k": "node", "t": round(r.uniform(1.0, 4.0), 6), "n": r.choice("AB"), "f": r.choice(["stop", "crash"])})
-    return {"engine": "pair", "property": ID, "class": "twin", "seed": seed, "cfg": cfg, "ops": ops, "until": 7.0}
+    cls = "twin"
+    if r.random() < 0.03:
+        # a crowd: valid SD messages from several hundred distinct senders (hosts and ports) reach one endpoint
+        cls = "twin-crowd"
+        to = r.choice("AB")
+        t0 = round(r.uniform(0.2, 2.0), 6) + 3e-8
+        n = r.choice([250, 257, 300, 520, 700])
+        for j in range(n):
+            src = [f"10.{1 + j // 250}.{j % 5}.{1 + j % 250}", r.choice([30490, 30490, 40000 + j])]
+            data = refdec.enc_sd_message([refdec.find(0x7777)], r.choice([1, 1, 2, 7]), reboot=True)
+            ops.append({"k": "inject", "t": round(t0 + j * 0.0005, 9), "to": to, "ch": "m" if j % 3 else "u", "src": src, "hex": data.hex(), "kind": "crowd"})
+    return {"engine": "pair", "property": ID, "class": cls, "seed": seed, "cfg": cfg, "ops": ops, "until": 7.0}
 
 
 SVC = {"svc": 0x4321, "inst": 1, "major": 1, "minor": 0, "methods": {"1": "echo", "2": "none", "3": "malformed"},
@@ -303,6 +326,10 @@ def check(plan, res):
                 sdm = refdec.dec_sd(m.payload)
                 if sdm.unicast and op.get("kind") == "valid" and tuple(op.get("src", ("",)))[0] == "10.0.0.78":
                     probes["valid_kept_in_twin"] = probes.get("valid_kept_in_twin", 0) + 1  # stays in the twin: affects both runs alike
+                elif sdm.unicast and op.get("kind") in HARMLESS_KINDS and tuple(op.get("src", ("",)))[0] not in ("10.0.0.1", "10.0.0.2"):
+                    # a FindService for a service nobody offers, from a sender outside the scenario: stays in the twin
+                    # (both runs see it, neither reacts); what is rejected around it must not matter
+                    probes["valid_kept_in_twin"] = probes.get("valid_kept_in_twin", 0) + 1
                 elif sdm.unicast or op.get("kind") != "unicast-flag-clear":
                     all_rejected = False
                     probes["decodable_sd_injected"] = probes.get("decodable_sd_injected", 0) + 1
